@@ -305,6 +305,8 @@ func c14Run(f []string) (ans string) {
 		return "ok " + HexListS(lines)
 	case "render":
 		return c14Render(f[1:])
+	case "rcli":
+		return c14RunRcli(f)
 	}
 	return "bad-op"
 }
@@ -1079,6 +1081,14 @@ func c14Gen(r *Rand, tier string) []string {
 	for i := 0; i < nRender; i++ {
 		out = append(out, c14GenRender(r))
 	}
+	// `rare reduce` in process (c14cli.go): a quarter of the cases feed stdin in phases 170 ms apart (several frames)
+	nCli := nRender / 60
+	if tier == "thorough" {
+		nCli = 1000
+	}
+	for i := 0; i < nCli; i++ {
+		out = append(out, c14GenRcli(r))
+	}
 	// Go's logarithms against their port to the software binary64 (Model/C14Log.lean): every power of two and of ten an
 	// int64 holds (the tables of log2_pow2_exact / log10_pow10_exact) and their neighbours, float64(int64) of random
 	// values, random bit patterns (subnormals, specials, negatives); the scaler with the all-kernel arithmetic
@@ -1297,7 +1307,7 @@ func c14Stats(cases []string) map[string]int {
 }
 
 func c14Corpus() []string {
-	return []string{
+	return append([]string{
 		// F21a: stacked bars, every value zero (running maximum 0) -> integer divide by zero (fixed b2c2a9f)
 		"render bars 0 1 linear hi 1 50 61 78 0:0:0",
 		"stack 0 0 0 50 0",
@@ -1323,7 +1333,7 @@ func c14Corpus() []string {
 		"fmtseq x7b73756269207b327d207b307d7d 21:0:23,21:0:92882",
 		"render bars 0 0 linear x7b307d206f66207b327d 0 50 61616161;62626262 - 0:0:5,1:0:9",
 		"render table 0 x7b307d2f7b327d 0 0 4 4 7231;7232;7233 6331;6332 0:0:1,1:1:2|2:0:7",
-	}
+	}, c14RcliCorpus()...)
 }
 
 func init() {
